@@ -299,6 +299,55 @@ def strategy():
     return case()
 
 
+def ctor_chunks(tier, seed):
+    return ['constructor']
+
+
+def run_ctor_chunk(_chunk, st):
+    """The writer's own constructor: an unsupported version is refused
+    without a byte written; the defaults are the documented ones."""
+    ns = sut.load()
+    evals = 0
+
+    for version in ('2.0', '1', '', None, 1.0, 'v1.0', '1.0 ', '0.9'):
+        stream = AppendOnly()
+        evals += 1
+
+        try:
+            ns.DiffXWriter(stream, version=version)
+        except Exception:
+            if stream.getvalue():
+                st.violation('rejected-constructor-wrote-bytes',
+                             'version=%r wrote %r' % (version,
+                                                      stream.getvalue()),
+                             {'version': version})
+
+            continue
+
+        st.violation('unsupported-version-accepted',
+                     'DiffXWriter(version=%r) accepted' % (version,),
+                     {'version': version})
+
+    for kwargs, enc in (({}, 'utf-8'), ({'version': '1.0'}, 'utf-8'),
+                        ({'encoding': 'latin-1'}, 'latin-1'),
+                        ({'encoding': 'utf-16', 'version': '1.0'}, 'utf-16')):
+        stream = AppendOnly()
+        evals += 1
+        w = ns.DiffXWriter(stream, **kwargs)
+        w.new_change()
+        w.write_preamble('é')
+        want = spec.ref_serialize({'encoding': enc, 'calls': [
+            ['change', {}], ['preamble', {'text': 'é'}]]})
+
+        if stream.getvalue() != want:
+            st.violation('constructor-defaults-differ',
+                         'DiffXWriter(**%r): %r, expected %r'
+                         % (kwargs, stream.getvalue(), want),
+                         {'kwargs': kwargs})
+
+    st.bulk(evals, evals, sample={'constructor': 'version / encoding'})
+
+
 def checks():
     return [
         EnumCheck(
@@ -314,6 +363,13 @@ def checks():
                  'reference serialisation of the accepted calls only; '
                  'non-trivial = a rejection followed by an acceptance',
             bound={'quick': 'LV = 8, LA = 3', 'thorough': 'LV = 10, LA = 4'}),
+        EnumCheck(
+            'constructor', ctor_chunks, run_ctor_chunk,
+            rule='DiffXWriter(): 8 unsupported version values must be '
+                 'refused with nothing written; default and explicit '
+                 'version / encoding arguments give the documented header '
+                 'and encoding; all non-trivial',
+            bound={'quick': '12 constructor calls', 'thorough': 'same'}),
         HypCheck(
             'random', strategy, run_case,
             budget={'quick': (8, 120), 'thorough': (16, 6000)},
